@@ -26,6 +26,9 @@
 // turns) x dense user comments (`#` at line ends and on own lines, incl. empty and one-character ones, ###
 // blocks) x, at random, everything else; the other variants are free compositions.
 //
+// Schema side, RULE SETS AND RULE ORDER (ruleorder.go): redundant / no-op rules in every combination Check accepts, the
+// rules of single nodes in every order, probe documents (null / another kind at the position of a rule-carrying node).
+//
 // Schema side, user comments BETWEEN TOKENS (slots.go): the rewrite "insert a user comment" is applied wherever the
 // schema language accepts one, in every form (`# …` to the end of the line, `### … ###` on one line, a `###` block
 // spanning line breaks; 1-3 in a row): inside empty brackets, directly behind an opening bracket, between a value
@@ -120,6 +123,7 @@ type node struct {
 	orEnum             []string // literal texts of the enum members of an or rule
 	addProps           string   // "", "true", "false", "any", "string", "integer", "@t"
 	refs               []string // names without '@' for kind ref
+	anyType            bool     // carries `type: "any"`
 }
 
 func lit(s string) rval { return rval{kind: 'l', lit: s} }
@@ -199,6 +203,10 @@ type gen struct {
 	ktypes     []*keyType
 	named      map[string]string // "@e1" -> text of the enum rule
 	namedOrder []string
+	// probe: sample() puts probeVal wherever it reaches schema node probeAt (ruleorder.go)
+	probeAt  *node
+	probeVal *dval
+	probeHit bool
 }
 
 // enumRule: the enum rule of a node, either with its items in place or - wide generator, root schema - as a
@@ -430,6 +438,9 @@ func (g *gen) orRule(n *node, own string) {
 	g.feat("or")
 	v := rval{kind: 'a'}
 	set := func(rs ...rule) rval {
+		if g.wide {
+			rs = g.redundantMember(rs)
+		}
 		r.Shuffle(len(rs), func(i, j int) { rs[i], rs[j] = rs[j], rs[i] })
 		return rval{kind: 'o', obj: rs}
 	}
@@ -764,6 +775,9 @@ func (g *gen) genNode(depth int, inObj, allowRef bool) *node {
 			n.rules = append(n.rules, rule{"nullable", lit("true")})
 			g.feat("nullable")
 		}
+		if g.wide {
+			g.redundant(n, inObj)
+		}
 		// the generator's own rule order is random as well
 		r.Shuffle(len(n.rules), func(i, j int) { n.rules[i], n.rules[j] = n.rules[j], n.rules[i] })
 		g.note(n)
@@ -799,7 +813,7 @@ func (g *gen) plant(root *node) {
 			}
 			return false
 		}
-		if has("enum") || has("or") || has("const") {
+		if has("enum") || has("or") || has("const") || n.anyType {
 			continue
 		}
 		kind := []string{"unknown-rule", "wrong-type-rule", "example-violates", "duplicate-rule", "unknown-type", "two-nodes-one-line"}[r.Intn(6)]
@@ -881,6 +895,8 @@ type spell struct {
 	lastNote  bool   // the annotation printed last has a note
 	// ins: user comments at the slots between tokens (slots.go); nil = none (base spelling, GenSchemaText)
 	ins *inserter
+	// perm: the rules of single nodes written in another order (ruleorder.go): perm[n][i] = index of the rule written i-th
+	perm map[*node][]int
 }
 
 func baseSpell() *spell {
@@ -1167,7 +1183,14 @@ func (sp *spell) annotation(n *node, depth int) string {
 	}
 	var body string
 	if len(n.rules) > 0 {
-		body = sp.ruleSet(n.rules, multi, depth)
+		rules := n.rules
+		if ord, ok := sp.perm[n]; ok && len(ord) == len(rules) {
+			rules = make([]rule, len(ord))
+			for i, j := range ord {
+				rules[i] = n.rules[j]
+			}
+		}
+		body = sp.ruleSet(rules, multi, depth)
 		body = body[:len(body)-1] + sp.slot(slotInfo{kind: "annotation:in-rules", tokBefore: true}, depth) + "}"
 		if note != "" {
 			body += sp.sps1() + "-" + sp.sps1() + note
@@ -1422,6 +1445,10 @@ type typeTable map[string]*node
 
 func (g *gen) sample(n *node, types typeTable, fuel int) *dval {
 	r := g.r
+	if g.probeAt == n && g.probeVal != nil { // ruleorder.go: a chosen value at the position of one schema node
+		g.probeHit = true
+		return g.probeVal
+	}
 	if n.nullable && r.Intn(5) == 0 {
 		return dnull()
 	}
@@ -2291,6 +2318,11 @@ func oneCase(seed int64, nVariants, nDocVariants, nSweep, nProbe int, explore bo
 		case j < 2:
 			dvals = append(dvals, g.sample(root, types, 3))
 			dkind = append(dkind, "sampled")
+		case j == 4:
+			// null or a value of another kind at the position of one rule-carrying node of the schema
+			d, hit := g.probeDoc(root, types)
+			dvals = append(dvals, d)
+			dkind = append(dkind, map[bool]string{true: "probed", false: "mutated"}[hit])
 		case j < 5:
 			dvals = append(dvals, g.mutate(g.sample(root, types, 3)))
 			dkind = append(dkind, "mutated")
@@ -2430,6 +2462,9 @@ func oneCase(seed int64, nVariants, nDocVariants, nSweep, nProbe int, explore bo
 		return res
 	}
 	commentSweep(seed, &res, base, raw, docs, printAll, nSweep, nProbe, false)
+
+	// ---- schema side: the rules of ONE node in every order (ruleorder.go)
+	ruleOrderSweep(seed, g, &res, root, types, base, docs, printAll, nRuleOrder)
 
 	// ---- document side (only meaningful when the schema is accepted)
 	if raw.check == "OK" {
@@ -2673,11 +2708,12 @@ var (
 )
 
 func Run(args []string) {
-	rep := vh.NewReport(command, "abstract schemas (objects, arrays incl. nested arrays followed by annotated elements, scalars of 5 kinds, @t / @t | @u shortcuts to 2 generated added types; rules min/max/exclusive*/lengths/regex/enum/const/type/precision/optional/nullable/minItems/maxItems/additionalProperties/or; notes; 1 in 6 schemas carries one planted single-symptom defect) printed in a BASE spelling and in VARIANT spellings = random compositions of: line ends LF/CRLF/CR/mixed, indentation none/spaces/tabs/mixed, user comments (# at line end incl. empty, full-line #, ### blocks between lines; BETWEEN THE TOKENS of a line at every slot the language accepts: inside empty brackets, behind an opening bracket, value|comma, value / comma / bracket | annotation, before / behind the line, behind an annotation, inside one-line subtrees - forms `# …`+line break, `### … ###`, ### block spanning line breaks, 1-3 in a row), inline vs multi-line annotations (with line breaks inside the rule object), notes dropped/changed/added, quoted vs bare rule names, trailing comma, extra spaces around ':' ',', rule order. Compared per (base, variant): Check verdict+code, AST JSON of root and added types (comment fields blanked iff notes were rewritten, rule order normalised iff rules were shuffled), Validate verdict on 6 documents (2 sampled, 3 mutated, 1 unrelated). The first variant of every schema combines a line-end style (LF / CRLF / CR / 4 mixtures, by turns) with dense user comments. Comment sweep: per schema 3 single insertions (1-3 comments of one form at ONE slot of the base spelling or of a carrier spelling with other line ends / multi-line annotations / quoted names; slot class chosen uniformly among the classes present, stats comment_sweep <class> <form>) compared with the base spelling like a variant, and 1 probe at a place outside the language (stats outside_language …, never a diff). Named enum rules ({enum: @e1}, added with AddRule) are the rule values that are shortcuts. Document side: each document of an accepted schema re-spelled (one random composition of whitespace, member order at all levels, escapes in keys and values incl. surrogate pairs and \\/ , fraction zeros; plus sweeps with one rewrite at a time: 5 document-wide escape forms = all two-character escapes / \\u lower / upper / mixed-case hex / \\u only where required, and for up to 2 objects per document all member orders (<= 3 members) or reverse + rotation + 6 random orders) and validated; objects under additionalProperties (all modes: false, true, any, every schema type, @t, @u) get 0-4 additional members of mixed conformity. KEY SHORTCUTS (keys.go): 2 cases in 5 have 1-4 string key types @k1..@k4 (regex anchored / unanchored / with slash, minLength / maxLength, enum with escaped items, plain example with and without escapes, const, email / uuid / date / datetime / uri, rule combinations, a type admitting every key; pairwise disjoint in 2 of 3 such cases, else overlapping); objects anywhere (root, nested, added types, one-line subtrees) carry 1-4 key shortcuts `@k: value` at random places among their literal keys, with or without additionalProperties; sampled documents draw keys that match the shortcuts (mostly one key per shortcut that no other shortcut admits; sometimes any key of the type or two keys for one shortcut) and go through all document rewrites - the member-order sweep takes objects with >= 2 shortcut-matched members first. A verdict change under a member-order change carries Class K-C13-keyorder iff, by the generator's own key predicates (checked against the tree at start: stat keytable_pairs_checked, a disagreement is a correspondence-level diff C13-keytable), two distinct non-literal keys of a document object are admitted by the key type of ONE shortcut of a schema object it can be validated against; otherwise it is unclassified. nontrivial = variant text differs from base text and (schema side) the schema has >=1 annotation / (document side) the document has a string or an object with >=2 members")
+	rep := vh.NewReport(command, "abstract schemas (objects, arrays incl. nested arrays followed by annotated elements, scalars of 5 kinds, @t / @t | @u shortcuts to 2 generated added types; rules min/max/exclusive*/lengths/regex/enum/const/type/precision/optional/nullable/minItems/maxItems/additionalProperties/or; notes; 1 in 6 schemas carries one planted single-symptom defect) printed in a BASE spelling and in VARIANT spellings = random compositions of: line ends LF/CRLF/CR/mixed, indentation none/spaces/tabs/mixed, user comments (# at line end incl. empty, full-line #, ### blocks between lines; BETWEEN THE TOKENS of a line at every slot the language accepts: inside empty brackets, behind an opening bracket, value|comma, value / comma / bracket | annotation, before / behind the line, behind an annotation, inside one-line subtrees - forms `# …`+line break, `### … ###`, ### block spanning line breaks, 1-3 in a row), inline vs multi-line annotations (with line breaks inside the rule object), notes dropped/changed/added, quoted vs bare rule names, trailing comma, extra spaces around ':' ',', rule order. Compared per (base, variant): Check verdict+code, AST JSON of root and added types (comment fields blanked iff notes were rewritten, rule order normalised iff rules were shuffled), Validate verdict on 6 documents (2 sampled, 3 mutated, 1 unrelated). The first variant of every schema combines a line-end style (LF / CRLF / CR / 4 mixtures, by turns) with dense user comments. Comment sweep: per schema 3 single insertions (1-3 comments of one form at ONE slot of the base spelling or of a carrier spelling with other line ends / multi-line annotations / quoted names; slot class chosen uniformly among the classes present, stats comment_sweep <class> <form>) compared with the base spelling like a variant, and 1 probe at a place outside the language (stats outside_language …, never a diff). RULE SETS AND RULE ORDER (ruleorder.go): rule sets are drawn from all rules applicable to the node kind incl. the redundant ones (nullable: false, const: false - alone and both on one node -, optional: false, exclusiveMinimum / exclusiveMaximum: false next to the bound, type naming the example's own kind / enum / mixed, additionalProperties: true, type any on rule-free scalars; also inside or members; stats schema_uses_noop-…); per schema 1 (thorough 2) node with >= 2 rules is re-spelled with its rules in every other order (<= 3 rules) or reverse + rotation + 3 random orders, all else as in the base spelling, compared like a variant on the 2 sampled documents + probe documents with null, the bounds its rules name (min / max value, string of minLength / maxLength, array of minItems / maxItems) and values of other kinds at the position of that node (stats rule_order_…); one of the six documents of every case is a probe document (null 1 in 2 / a bound / a value of another kind at the position of a rule-carrying node, stat doc_probe_…) in place of the third mutated one. Named enum rules ({enum: @e1}, added with AddRule) are the rule values that are shortcuts. Document side: each document of an accepted schema re-spelled (one random composition of whitespace, member order at all levels, escapes in keys and values incl. surrogate pairs and \\/ , fraction zeros; plus sweeps with one rewrite at a time: 5 document-wide escape forms = all two-character escapes / \\u lower / upper / mixed-case hex / \\u only where required, and for up to 2 objects per document all member orders (<= 3 members) or reverse + rotation + 6 random orders) and validated; objects under additionalProperties (all modes: false, true, any, every schema type, @t, @u) get 0-4 additional members of mixed conformity. KEY SHORTCUTS (keys.go): 2 cases in 5 have 1-4 string key types @k1..@k4 (regex anchored / unanchored / with slash, minLength / maxLength, enum with escaped items, plain example with and without escapes, const, email / uuid / date / datetime / uri, rule combinations, a type admitting every key; pairwise disjoint in 2 of 3 such cases, else overlapping); objects anywhere (root, nested, added types, one-line subtrees) carry 1-4 key shortcuts `@k: value` at random places among their literal keys, with or without additionalProperties; sampled documents draw keys that match the shortcuts (mostly one key per shortcut that no other shortcut admits; sometimes any key of the type or two keys for one shortcut) and go through all document rewrites - the member-order sweep takes objects with >= 2 shortcut-matched members first. A verdict change under a member-order change carries Class K-C13-keyorder iff, by the generator's own key predicates (checked against the tree at start: stat keytable_pairs_checked, a disagreement is a correspondence-level diff C13-keytable), two distinct non-literal keys of a document object are admitted by the key type of ONE shortcut of a schema object it can be validated against; otherwise it is unclassified. nontrivial = variant text differs from base text and (schema side) the schema has >=1 annotation / (document side) the document has a string or an object with >=2 members")
 	r := vh.NewRand(salt)
 	nSchemas := vh.Pick(2100, 60000)
 	nVar, nDocVar := 4, 1
 	nSweep, nProbe := 3, 1
+	nRuleOrder = vh.Pick(1, 2)
 	debug := len(args) > 0 && args[0] == "debug"
 	// `vh c13-metamorphic slots`: the slot map (every slot class x comment form once per schema: what the tree does)
 	explore := len(args) > 0 && args[0] == "slots"
